@@ -73,6 +73,13 @@ phdr_cb(struct dl_phdr_info *info, size_t size, void *data)
 
 static __thread char cur_desc[200];
 static const char *cur_family = "host";
+static char names[128][96];
+static void **ptrs[128];
+static void *mbinit[128], *bound[128];
+static int n_entries;
+static volatile int protected_now;
+static atomic_int late_binds;
+static uintptr_t hook_ctr[4];     /* the virtual-CPUID hook's own counters (harness/vcpuid.S inside the .so) */
 
 static void
 on_fault(int sig, siginfo_t *si, void *u)
@@ -82,6 +89,31 @@ on_fault(int sig, siginfo_t *si, void *u)
         int n;
         ucontext_t *uc = u;
         uintptr_t pc = (uintptr_t) uc->uc_mcontext.gregs[REG_RIP];
+        if (sig == SIGTRAP) {
+                /* the single binding store that was let through has executed: protect again */
+                if (protected_now) mprotect((void *) rw_lo, rw_hi - rw_lo, PROT_READ);
+                uc->uc_mcontext.gregs[REG_EFL] &= ~0x100ll;
+                return;
+        }
+        if (a >= rw_lo && a < rw_hi && protected_now)
+                for (int i = 0; i < n_entries; i++)
+                        if (a == (uintptr_t) ptrs[i] && *ptrs[i] == mbinit[i]) {
+                                /* a dispatch slot that is still unbound: the harness failed to make this binding
+                                   before protecting.  Not a property violation: report, let the store execute
+                                   (trap flag), re-protect in the SIGTRAP handler */
+                                n = snprintf(buf, sizeof buf, "LATEBIND %s pc=%lx family=%s %s\n", names[i], (unsigned long) (pc - so_base), cur_family, cur_desc);
+                                if (write(1, buf, (size_t) n) < 0) {}
+                                atomic_fetch_add(&late_binds, 1);
+                                mprotect((void *) rw_lo, rw_hi - rw_lo, PROT_READ | PROT_WRITE);
+                                uc->uc_mcontext.gregs[REG_EFL] |= 0x100;
+                                return;
+                        }
+        if (protected_now && (a == hook_ctr[0] || a == hook_ctr[1] || a == hook_ctr[2] || a == hook_ctr[3]) && a) {
+                /* a dispatcher running late under a virtual CPUID bumps the hook's call counter: harness data */
+                mprotect((void *) rw_lo, rw_hi - rw_lo, PROT_READ | PROT_WRITE);
+                uc->uc_mcontext.gregs[REG_EFL] |= 0x100;
+                return;
+        }
         if (a >= rw_lo && a < rw_hi)
                 n = snprintf(buf, sizeof buf, "FAULT write-to-library-static addr=%lx pc=%lx\n", (unsigned long) (a - so_base),
                              (unsigned long) (pc - so_base));
@@ -415,9 +447,37 @@ run_parallel(struct job *jobs, int n)
         return 0;
 }
 
-static char names[128][96];
-static void **ptrs[128];
-static void *mbinit[128], *bound[128];
+static int
+protect(int on)
+{
+        if (!on) protected_now = 0;
+        if (mprotect((void *) rw_lo, rw_hi - rw_lo, on ? PROT_READ : PROT_READ | PROT_WRITE)) { perror("mprotect"); return -1; }
+        if (on) protected_now = 1;
+        return 0;
+}
+
+/* make EVERY binding the operations can reach under the current preset: every variant of every
+   operation kind once (deterministic), unprotected; returns the number of bound entries */
+static int
+bind_all(uint8_t *buf, uint64_t seed)
+{
+        uint64_t s = seed ^ 0xb1d;
+        for (int k = 0; k < NOPS; k++)
+                for (int v = 0; v < OPVARS[k]; v++) {
+                        cfg.force = 1; cfg.align = 0; cfg.len = 1280; cfg.variant = v;
+                        OPS[k](&s, buf);
+                }
+        cfg.force = 0;
+        int nb = 0;
+        for (int i = 0; i < n_entries; i++) nb += *ptrs[i] != mbinit[i];
+        return nb;
+}
+static void
+report_unbound(const char *where)
+{
+        for (int i = 0; i < n_entries; i++)
+                if (*ptrs[i] == mbinit[i]) printf("UNBOUND %s family=%s (%s)\n", names[i], cur_family, where);
+}
 
 /* targeted search: the given operation kinds under the given family presets, single-threaded,
    library data write-protected, over a grid of alignments x length classes x variants */
@@ -428,20 +488,20 @@ sweep(const char *kinds, const char *fams, int ne, uint64_t seed)
                                          2047, 2048, 2049, 3071, 3072, 3073, 4096, 4097, 5120 };
         uint8_t *buf;
         if (posix_memalign((void **) &buf, 64, BUFSZ + 64)) return 2;
+        (void) isal_self_tests();       /* FIPS: the verdict is published before anything is protected */
         char fl[256];
         strncpy(fl, fams, sizeof fl - 1); fl[sizeof fl - 1] = 0;
         for (char *fam = strtok(fl, ","); fam; fam = strtok(NULL, ",")) {
                 if (so_preset(fam)) continue;
                 cur_family = fam;
                 for (int i = 0; i < ne; i++) *ptrs[i] = mbinit[i];
+                /* STATICS_DRV_SKIP_BIND=1: self-test of the late-binding path of this harness only */
+                if (!getenv("STATICS_DRV_SKIP_BIND") && bind_all(buf, seed) != ne) report_unbound("sweep");
                 for (int k = 0; k < NOPS; k++) {
                         if (!strstr(kinds, OPNAMES[k])) continue;
                         uint64_t s = seed;
                         long calls = 0;
-                        /* bind (unprotected) */
-                        cfg.force = 0;
-                        for (int i = 0; i < 8; i++) OPS[k](&s, buf);
-                        if (mprotect((void *) rw_lo, rw_hi - rw_lo, PROT_READ)) return 2;
+                        if (protect(1)) return 2;
                         for (int al = 0; al < 64; al++)
                                 for (unsigned li = 0; li < sizeof lens / sizeof lens[0]; li++)
                                         for (int v = 0; v < OPVARS[k]; v += (OPVARS[k] > 16 ? 5 : 1)) {
@@ -450,8 +510,8 @@ sweep(const char *kinds, const char *fams, int ne, uint64_t seed)
                                                 calls++;
                                         }
                         cfg.force = 0;
-                        if (mprotect((void *) rw_lo, rw_hi - rw_lo, PROT_READ | PROT_WRITE)) return 2;
-                        printf("S family=%s op=%s calls=%ld nofault\n", fam, OPNAMES[k], calls);
+                        if (protect(0)) return 2;
+                        printf("S family=%s op=%s calls=%ld nofault late_binds=%d\n", fam, OPNAMES[k], calls, atomic_load(&late_binds));
                         fflush(stdout);
                 }
         }
@@ -483,7 +543,11 @@ main(int argc, char **argv)
         if (!rw_lo) { printf("NOMAP\n"); return 2; }
         {
                 void *lib = dlopen("libisalverif.so", RTLD_NOW | RTLD_NOLOAD);
-                if (lib) { so_cpuid_on = dlsym(lib, "verif_cpuid_on"); so_cpuid_tab = dlsym(lib, "verif_cpuid_tab"); }
+                if (lib) {
+                        so_cpuid_on = dlsym(lib, "verif_cpuid_on"); so_cpuid_tab = dlsym(lib, "verif_cpuid_tab");
+                        hook_ctr[0] = (uintptr_t) dlsym(lib, "verif_cpuid_calls"); hook_ctr[1] = (uintptr_t) dlsym(lib, "verif_xgetbv_calls");
+                        hook_ctr[2] = (uintptr_t) dlsym(lib, "verif_cpuid_badleaf"); hook_ctr[3] = (uintptr_t) dlsym(lib, "verif_xgetbv_ud");
+                }
                 if (!so_cpuid_on || !so_cpuid_tab || (uintptr_t) so_cpuid_on < rw_lo || (uintptr_t) so_cpuid_on >= rw_hi) { printf("NOHOOK\n"); return 2; }
         }
         for (int i = 0; i < ne; i++)
@@ -495,7 +559,9 @@ main(int argc, char **argv)
         sa.sa_flags = SA_SIGINFO;
         sigaction(SIGSEGV, &sa, NULL);
         sigaction(SIGBUS, &sa, NULL);
+        sigaction(SIGTRAP, &sa, NULL);
 
+        n_entries = ne;
         if (argc > 7 && !strcmp(argv[5], "sweep")) return sweep(argv[6], argv[7], ne, seed);
 
         /* ---------------- phase A, once per implementation family (virtual CPUID presets of the hook
@@ -507,6 +573,8 @@ main(int argc, char **argv)
                 jobs[t].res = calloc((size_t) nops, 8);
                 ref[t].res = calloc((size_t) nops, 8);
         }
+        uint8_t *bindbuf;
+        if (posix_memalign((void **) &bindbuf, 64, BUFSZ + 64)) return 2;
         static const char *presets[] = { "host", "base", "sse", "avx", "avx2", "avx512", "avx512g2", "sse_ni", "avx512_ni" };
         for (int pi = 0; pi < 9; pi++) {
                 if (so_preset(presets[pi])) continue;
@@ -518,13 +586,13 @@ main(int argc, char **argv)
                         jobs[t].rotate = ref[t].rotate = -1;
                         run_job(&ref[t]);            /* sequential reference (binds what the mix uses) */
                 }
-                /* one pass over every operation kind so that every entry the mix can reach is bound */
-                { uint64_t r[NOPS * 4]; struct job w = { seed ^ 0x5555, NOPS * 4, r, 0 }; run_job(&w); }
-                int nbound = 0;
-                for (int i = 0; i < ne; i++) { bound[i] = *ptrs[i]; nbound += bound[i] != mbinit[i]; }
-                if (mprotect((void *) rw_lo, rw_hi - rw_lo, PROT_READ)) { perror("mprotect"); return 2; }
+                /* every variant of every operation kind once: every entry the mix can reach is bound */
+                int nbound = bind_all(bindbuf, seed);
+                if (nbound != ne) report_unbound("mix");
+                for (int i = 0; i < ne; i++) bound[i] = *ptrs[i];
+                if (protect(1)) return 2;
                 run_parallel(jobs, nth);
-                if (mprotect((void *) rw_lo, rw_hi - rw_lo, PROT_READ | PROT_WRITE)) { perror("mprotect"); return 2; }
+                if (protect(0)) return 2;
                 long diff = 0;
                 for (int t = 0; t < nth; t++)
                         for (int i = 0; i < nops; i++) diff += jobs[t].res[i] != ref[t].res[i];
@@ -534,14 +602,14 @@ main(int argc, char **argv)
                                 Dl_info di;
                                 if (dladdr(*ptrs[i], &di) && di.dli_sname) sample = di.dli_sname;
                         }
-                printf("A family=%s threads=%d ops=%d protected_bytes=%lu entries=%d bound=%d fips_ret=%d result_mismatches=%ld sha256_submit=%s\n", presets[pi], nth, nops,
-                       (unsigned long) (rw_hi - rw_lo), ne, nbound, fips, diff, sample);
+                printf("A family=%s threads=%d ops=%d protected_bytes=%lu entries=%d bound=%d fips_ret=%d result_mismatches=%ld late_binds=%d sha256_submit=%s\n", presets[pi], nth, nops,
+                       (unsigned long) (rw_hi - rw_lo), ne, nbound, fips, diff, atomic_load(&late_binds), sample);
                 fflush(stdout);
         }
         so_preset("host");
         cur_family = "host(race)";
         for (int i = 0; i < ne; i++) *ptrs[i] = mbinit[i];
-        { uint64_t r[NOPS * 4]; struct job w = { seed ^ 0x5555, NOPS * 4, r, 0 }; run_job(&w); }
+        if (bind_all(bindbuf, seed) != ne) report_unbound("race reference");
         for (int i = 0; i < ne; i++) bound[i] = *ptrs[i];
 
         /* ---------------- phase B */
